@@ -950,3 +950,37 @@ func (g *Gen) HistoryRuns() []E {
 	evs = append(evs, E{"op": "Count", "c": c, "q": []interface{}{}, "audit": true})
 	return evs
 }
+
+// ---------------------------------------------------------------- a database file that grows, shrinks and is reopened
+
+// HistoryShrinkReopen: a few hundred documents of 4 to 8 KB (a data file of several MB), most of them deleted again
+// (more than half of the file is free pages), then close and reopen, acknowledged writes of every kind in the new
+// session, close and reopen again: whatever a store does to a sparse file when it opens it, what was acknowledged
+// before and after is there.
+func (g *Gen) HistoryShrinkReopen() []E {
+	c := g.colls[0]
+	evs := []E{{"op": "CreateCollection", "c": c}, {"op": "CreateIndex", "c": c, "f": B("x")}}
+	n := 260 + g.r.Intn(120)
+	var batch []interface{}
+	for i := 0; i < n; i++ {
+		batch = append(batch, AObj("_id", AStr(bulkId(i)), "x", ANum(g.smallN[i%len(g.smallN)], "i"), "p", APad([]int{4096, 6000, 8192}[i%3])))
+		if len(batch) == 60 || i == n-1 {
+			evs = append(evs, E{"op": "Insert", "c": c, "docs": batch, "audit": false})
+			batch = nil
+		}
+	}
+	keep := ANum(g.smallN[0], "i")
+	evs = append(evs, E{"op": "Delete", "c": c, "q": []interface{}{[]interface{}{"where", []interface{}{"un", "gt", B("x"), []interface{}{"lit", keep}}}}, "audit": true})
+	evs = append(evs, E{"op": "Reopen", "audit": true})
+	// the session after the reopen
+	evs = append(evs, E{"op": "Insert", "c": c, "docs": []interface{}{AObj("_id", AStr(bulkId(n+1)), "x", g.smallNum()), AObj("_id", AStr(bulkId(n+2)), "x", g.smallNum())}})
+	evs = append(evs, E{"op": "UpdateById", "c": c, "id": B(bulkId(0)), "upd": []interface{}{"set", B("x"), ANum(g.smallN[2], "i")}})
+	evs = append(evs, E{"op": "DeleteById", "c": c, "id": B(bulkId(len(g.smallN)))})
+	evs = append(evs, E{"op": "CreateIndex", "c": c, "f": B("k")})
+	evs = append(evs, E{"op": "CreateCollection", "c": "second"})
+	evs = append(evs, E{"op": "Insert", "c": "second", "docs": []interface{}{AObj("_id", AStr(bulkId(1)), "x", g.smallNum())}, "audit": true})
+	evs = append(evs, E{"op": "Reopen", "audit": true})
+	evs = append(evs, E{"op": "FindAll", "c": c, "q": []interface{}{[]interface{}{"sort", []interface{}{[]interface{}{B("x"), 1}, []interface{}{B("_id"), 1}}}}})
+	evs = append(evs, E{"op": "ListCollections"}, E{"op": "ListIndexes", "c": c}, E{"op": "Count", "c": "second", "q": []interface{}{}, "audit": true})
+	return evs
+}
